@@ -9,13 +9,13 @@ CONSTANTS
   MaxUniform = 1
   Periods = {100}
   Statuses = {}
-  MaxOps = 3
+  MaxOps = 4
   MaxFaults = 0
   MaxData = 2
   MaxLate = 0
   TocAlts <- TocLonger
   IdMod = 255
-  Bugs = {"partial_resolve"}
+  Bugs <- NoBugs
   WithSync = FALSE
 INVARIANT ObsOK
 INVARIANT TypeOK
